@@ -142,3 +142,331 @@ def u_disguise(ctx):
                           z3.Implies(z3.And(other >= 0, other <= 2), s1 + other != s0 + other))
         exits(eng, outs, ensure=ensure)
     return eng.obligations
+
+
+# ------------------------------------------------------------------------------------------------ screen: bracket, clear hooks
+def screen_world(ctx, eng, st):
+    cs = ctx.ns("term_image._ctlseqs")
+    ns = ctx.ns("term_image.widget._urwid")
+    for k in ("BEGIN_SYNCED_UPDATE", "END_SYNCED_UPDATE"):
+        eng.genv[k] = ns.d[k]
+    eng.genv["ctlseqs"] = cs
+    st.ghost["out"] = []          # what the screen wrote / did, in order
+    self_ = st.new("UrwidImageScreen", {"_ti_screen_canv": None, "_ti_image_cviews": None})
+    eng.closed_classes.add("UrwidImageScreen")
+
+    def log(tag):
+        def f(e, s, recv, a, k):
+            s = e.fork(s)
+            s.ghost["out"] = s.ghost["out"] + [(tag,) + tuple(a)]
+            return [(None, s)]
+        return f
+    eng.methods[("UrwidImageScreen", "write")] = log("write")
+    eng.methods[("UrwidImageScreen", "flush")] = log("flush")
+    eng.methods[("UrwidImageScreen", "clear_images")] = log("clear_images")
+    return self_, log
+
+
+def base_call(eng, name, may_raise=True):
+    """super().<name>(...): urwid's own implementation (assumed: may write, may raise)"""
+    def attr(e, s, v):
+        def f(e2, s2, a, k):
+            s2 = e2.fork(s2)
+            s2.ghost["out"] = s2.ghost["out"] + [("base." + name,)]
+            if may_raise:
+                for exc in ("Boom", "KeyboardInterrupt"):
+                    e2.raise_(ExcVal(exc), e2.fork(s2), fault=True)
+            return [(Opaque("base result"), s2)]
+        return [(Fn(f), s)]
+    eng.attrs[("super", name)] = attr
+    eng.genv["super"] = Fn(lambda e, s, a, k: [(Rec("super", {}), s)])
+
+
+@unit("C18", "_urwid:UrwidImageScreen.draw_screen")
+def u_draw_screen(ctx):
+    obs = []
+    for same_canvas in (True, False):
+        eng = ctx.engine(f"C18/draw_screen[{'same' if same_canvas else 'new'}-canvas]", "C18")
+        eng.default_replay = "C18.screen"
+        st = State()
+        self_, log = screen_world(ctx, eng, st)
+        base_call(eng, "draw_screen")
+        canvas = st.new("canvas", {})
+        if same_canvas:
+            st.H(self_)["_ti_screen_canv"] = canvas
+
+        def clear_imgs(e, s, recv, a, k):
+            s = e.fork(s)
+            s.ghost["out"] = s.ghost["out"] + [("_ti_clear_images",)]
+            for exc in ("Boom", "KeyboardInterrupt"):
+                e.raise_(ExcVal(exc), e.fork(s), fault=True)
+            return [(None, s)]
+        eng.methods[("UrwidImageScreen", "_ti_clear_images")] = clear_imgs
+        st.env.update(self=self_, maxres=Opaque("maxres"), canvas=canvas)
+        outs = run_function(eng, ctx.fn(URW, "UrwidImageScreen.draw_screen"), st)
+        BEGIN, END = eng.genv["BEGIN_SYNCED_UPDATE"], eng.genv["END_SYNCED_UPDATE"]
+        for kind, val, s in outs:
+            out = s.ghost["out"]
+            writes = [x for x in out if x[0] == "write"]
+            ok = (len(out) >= 3 and out[0] == ("write", BEGIN) and out[-2] == ("write", END) and out[-1] == ("flush",)
+                  and all(x[1] not in (BEGIN, END) for x in writes[1:-1]))
+            eng.oblige(f"all-output-of-a-redraw-bracketed-by-begin/end-synchronized-update,then-flushed@{kind}", s, ok, kind="exit")
+            names = [x[0] for x in out]
+            if "base.draw_screen" in names:
+                idx = names.index("base.draw_screen")
+                cleared_before = "_ti_clear_images" in names[:idx]
+                eng.oblige("stale-images-handled-before-the-new-content-is-drawn(new-canvas)", s, cleared_before or same_canvas, kind="exit")
+            if kind in ("return", "normal"):
+                eng.oblige("remembers-the-canvas-just-drawn", s, s.H(self_)["_ti_screen_canv"] is canvas, kind="post")
+        obs += eng.obligations
+    return obs
+
+
+@unit("C18", "_urwid:UrwidImageScreen.clear/_start/_stop")
+def u_clear_hooks(ctx):
+    obs = []
+    for name in ("clear", "_start", "_stop"):
+        eng = ctx.engine(f"C18/UrwidImageScreen.{name}", "C18")
+        eng.default_replay = "C18.screen"
+        st = State()
+        self_, log = screen_world(ctx, eng, st)
+        base_call(eng, name, may_raise=False)
+        st.env.update(self=self_, args=(), kwargs=st.new("dict", {"@items": {}}))
+        outs = run_function(eng, ctx.fn(URW, f"UrwidImageScreen.{name}"), st)
+        for kind, val, s in outs:
+            names = [x[0] for x in s.ghost["out"]]
+            eng.oblige("images-cleared(once)-and-the-base-implementation-runs", s, And(kind != "raise", names.count("clear_images") == 1, names.count("base." + name) == 1), kind="post")
+            if name == "_stop":
+                eng.oblige("images-cleared-before-the-screen-is-stopped", s, names.index("clear_images") < names.index("base._stop") if "clear_images" in names and "base._stop" in names else False, kind="post")
+        obs += eng.obligations
+    return obs
+
+
+@unit("C18", "_urwid:UrwidImageScreen.clear_images")
+def u_clear_images(ctx):
+    obs = []
+    cs = ctx.ns("term_image._ctlseqs")
+    for n_widgets in (0, 2):
+        for now in (True, False):
+            for supported in (True, False):
+                eng = ctx.engine(f"C18/clear_images[widgets={n_widgets},now={now},kitty-supported={supported}]", "C18")
+                eng.default_replay = "C18.screen"
+                st = State()
+                self_, log = screen_world(ctx, eng, st)
+                del eng.methods[("UrwidImageScreen", "clear_images")]
+                eng.genv.update(UTIL_ERRS)
+                eng.classes.update({"UrwidImage": (), "KittyImage": ("GraphicsImage",), "BlockImage": ()})
+                eng.genv.update(UrwidImage=ClassV("UrwidImage"))
+                kitty_cls = st.new("KittyCls", {"forced_support": False})
+                eng.methods[("KittyCls", "is_supported")] = lambda e, s, recv, a, k: [(supported, s)]
+                eng.genv["KittyImage"] = kitty_cls
+                eng.isinstance_alias = {"KittyCls": "KittyImage"}
+                canvcls = st.new("CanvasCls", {"disguise_changes": 0})
+
+                def canv_disguise(e, s, recv, a, k):
+                    s = e.fork(s)
+                    s.H(recv)["disguise_changes"] += 1
+                    return [(None, s)]
+                eng.methods[("CanvasCls", "_ti_change_disguise")] = canv_disguise
+                eng.genv["UrwidImageCanvas"] = canvcls
+
+                def write_tty(e, s, a, k):
+                    s = e.fork(s)
+                    s.ghost["out"] = s.ghost["out"] + [("write_tty", a[0])]
+                    return [(None, s)]
+                eng.genv["write_tty"] = Fn(write_tty)
+                z1, z2 = z3.Ints("z_index_1 z_index_2")
+                w1 = st.new("UrwidImage", {"_ti_image": st.new("KittyImage", {}), "_ti_z_index": z1, "disguise_changes": 0})
+                w2 = st.new("UrwidImage", {"_ti_image": st.new("BlockImage", {}), "disguise_changes": 0})
+
+                def w_disguise(e, s, recv, a, k):
+                    s = e.fork(s)
+                    s.H(recv)["disguise_changes"] += 1
+                    return [(None, s)]
+                eng.methods[("UrwidImage", "_ti_change_disguise")] = w_disguise
+                widgets = (w1, w2)[:n_widgets]
+                st.env.update(self=self_, widgets=widgets, now=now)
+                outs = run_function(eng, ctx.fn(URW, "UrwidImageScreen.clear_images"), st)
+                from pyvc.tstr import TS, IntDec
+                for kind, val, s in outs:
+                    out = s.ghost["out"]
+                    if kind == "raise":
+                        eng.oblige(f"no-exception:{val.cls}", s, False, kind="raise")
+                        continue
+                    if not supported:
+                        eng.oblige("nothing-sent-when-the-protocol-is-unsupported", s, out == [], kind="post")
+                        continue
+                    sent = [x for x in out if x[0] in ("write", "write_tty")]
+                    via = "write_tty" if now else "write"
+                    if n_widgets == 0:
+                        exp = cs.d["KITTY_DELETE_ALL_b"] if now else cs.d["KITTY_DELETE_ALL"]
+                        ok = len(sent) == 1 and sent[0][0] == via and sent[0][1] == exp and s.H(canvcls)["disguise_changes"] == 1
+                        eng.oblige("delete-all-sent(immediately-iff-now)-and-every-canvas-forced-to-redraw", s, ok, kind="post")
+                    else:
+                        # only the kitty widget: delete by its z-index, and force its lines to be redrawn
+                        ok = len(sent) == 1 and sent[0][0] == via and s.H(w1)["disguise_changes"] == 1 and s.H(w2)["disguise_changes"] == 0
+                        data = sent[0][1] if sent else None
+                        zs = [p.v for p in data.items if isinstance(p, IntDec)] if isinstance(data, TS) else []
+                        eng.oblige("delete-by-z-index-of-exactly-the-kitty-widgets", s, And(ok, len(zs) == 1 and Eq(zs[0], z1)), kind="post")
+                obs += eng.obligations
+    return obs
+
+
+@unit("C18", "_urwid:UrwidImageScreen._ti_clear_images[top-canvas-not-composite]")
+def u_ti_clear_noncomposite(ctx):
+    """the top-level canvas is not a CompositeCanvas (e.g. a SolidFill top widget): no image can be on the new screen, so any
+    image shown before is deleted and the bookkeeping set is emptied - without an exception"""
+    obs = []
+    for had_images in (True, False):
+        for supported in (True, False):
+            eng = ctx.engine(f"C18/_ti_clear_images[non-composite,had-images={had_images},supported={supported}]", "C18")
+            eng.default_replay = "C18.screen"
+            st = State()
+            self_, log = screen_world(ctx, eng, st)
+            eng.classes.update({"CompositeCanvas": (), "SolidCanvas": ()})
+            eng.genv["urwid"] = Namespace("urwid", {"CompositeCanvas": ClassV("CompositeCanvas")})
+            kitty_cls = st.new("KittyCls", {"forced_support": False})
+            eng.methods[("KittyCls", "is_supported")] = lambda e, s, recv, a, k: [(supported, s)]
+            eng.genv["KittyImage"] = kitty_cls
+            eng.genv["ITerm2Image"] = kitty_cls
+            eng.genv["get_terminal_name_version"] = Fn(lambda e, s, a, k: [(("konsole", "22"), s)])
+            # `_ti_image_cviews` is a frozenset (see __init__ and the last line of this function): immutable
+            cviews = st.new("frozenset", {"len": 1 if had_images else 0})
+            eng.closed_classes.add("frozenset")
+            eng.methods[("frozenset", "__bool__")] = lambda e, s, recv, a, k: [(s.H(recv)["len"] > 0, s)]
+            st.H(self_)["_ti_image_cviews"] = cviews
+            st.H(self_)["_ti_screen_canv"] = st.new("SolidCanvas", {})
+            eng.genv["frozenset"] = Fn(lambda e, s, a, k: [_new_fs(e, s)])
+            st.env["self"] = self_
+            outs = run_function(eng, ctx.fn(URW, "UrwidImageScreen._ti_clear_images"), st)
+            for kind, val, s in outs:
+                if kind == "raise":
+                    eng.oblige(f"no-exception:{val.cls}", s, False, kind="raise")
+                    continue
+                names = [x[0] for x in s.ghost["out"]]
+                cur = s.H(self_)["_ti_image_cviews"]
+                empty_now = isinstance(cur, Ref) and s.H(cur).get("len") == 0
+                if supported and had_images:
+                    eng.oblige("previously-shown-images-deleted-and-forgotten", s, And("clear_images" in names, empty_now), kind="post")
+                elif supported:
+                    eng.oblige("nothing-to-delete", s, "clear_images" not in names, kind="post")
+            obs += eng.obligations
+    return obs
+
+
+def _new_fs(e, s):
+    s = e.fork(s)
+    return s.new("frozenset", {"len": 0}), s
+
+
+@unit("C18", "_urwid:UrwidImageScreen._ti_clear_images[delete-what-disappeared]")
+def u_ti_clear_tail(ctx):
+    """the tail of _ti_clear_images (from `kitty_widgets = []`): given the views on screen before (`self._ti_image_cviews`) and
+    the views of the canvas about to be drawn (`image_cviews`, computed by the shard walk, assumed), every image that is no
+    longer at its previous position is deleted before the new content is shown, and the bookkeeping is replaced"""
+    import ast as _ast
+    fn = ctx.fn(URW, "UrwidImageScreen._ti_clear_images")
+    idx = [i for i, st_ in enumerate(fn.body) if isinstance(st_, _ast.Assign) and getattr(st_.targets[0], "id", None) == "kitty_widgets"]
+    if len(idx) != 1:
+        raise Unsupported("_ti_clear_images: the statement `kitty_widgets = []` was not found exactly once")
+    tail = fn.body[idx[0]:]
+    eng = ctx.engine("C18/_ti_clear_images[tail]", "C18")
+    eng.default_replay = "C18.screen"
+    eng.number_loops(fn)
+    st = State()
+    self_, log = screen_world(ctx, eng, st)
+    D = z3.Int("n_disappeared")            # |old - new|
+    st.pc.append(D >= 0)
+    K = z3.Function("disappeared_is_kitty", z3.IntSort(), z3.BoolSort())
+    WID = z3.Function("disappeared_widget", z3.IntSort(), z3.IntSort())
+    old = st.new("viewset", {"which": "old"})
+    new = st.new("viewset", {"which": "new"})
+    st.H(self_)["_ti_image_cviews"] = old
+
+    def elem(i, s_):
+        i = to_z3(i)
+        widget = Rec("widget", {"wid": WID(i), "_ti_image": Rec("image", {"kitty": K(i)})})
+        canv = Rec("canvas", {"widget_info": (widget, "size", "focus")})
+        return (canv, "row", "col", "trim")
+    eng.methods[("viewset", "__sub__")] = lambda e, s, recv, a, k: [(SeqV(D, elem, "set-difference"), s)] if recv is old and a[0] is new else _unsup("set difference of other sets")
+    eng.genv["KittyImage"] = ClassV("KittyImage")
+    eng.genv["isinstance"] = Fn(lambda e, s, a, k: [(a[0].f["kitty"], s)] if isinstance(a[0], Rec) and a[0].name == "image" else _unsup("isinstance"))
+    eng.genv["frozenset"] = Fn(lambda e, s, a, k: [(Rec("frozenset_of", {"src": a[0]}), s)])
+    kw = st.new("symlist", {"len": z3.IntVal(0)})
+    eng.genv["__list__"] = None
+    orig_ev_list = eng.ev_List
+
+    def ev_List(e_, s_):
+        if not e_.elts:
+            s_ = eng.fork(s_)
+            r = s_.new("symlist", {"len": z3.IntVal(0), "all_kitty_prefix": True})
+            return [(r, s_)]
+        return orig_ev_list(e_, s_)
+    eng.ev_List = ev_List
+
+    def sl_append(e, s, recv, a, k):
+        s = e.fork(s)
+        h = s.H(recv)
+        # the list is the prefix of the disappeared widgets: the element appended must be the next one
+        e.oblige("kitty_widgets-collects-the-disappeared-widgets-in-order", s, Eq(a[0].f["wid"], WID(to_z3(h["len"]))), kind="safety")
+        h["len"] = h["len"] + 1
+        return [(None, s)]
+    eng.methods[("symlist", "append")] = sl_append
+    eng.methods[("symlist", "__bool__")] = lambda e, s, recv, a, k: [(s.H(recv)["len"] > 0, s)]
+
+    def clear_images(e, s, recv, a, k):
+        s = e.fork(s)
+        s.ghost["out"] = s.ghost["out"] + [("clear_images", a)]
+        return [(None, s)]
+    eng.methods[("UrwidImageScreen", "clear_images")] = clear_images
+    # `self.clear_images(*kitty_widgets)`: star-argument of the symbolic list
+    orig_iter = eng.iter_concrete
+
+    def iter_concrete(v, s_):
+        if isinstance(v, Ref) and v.cls == "symlist":
+            return [("ALL", s_.H(v)["len"])]
+        return orig_iter(v, s_)
+    eng.iter_concrete = iter_concrete
+    from pyvc.engine import LoopSpec
+    loop_id = [eng.loop_ids[(n_.lineno, n_.col_offset)] for n_ in _ast.walk(fn) if isinstance(n_, _ast.For) and n_ in tail]
+    if len(loop_id) != 1:
+        raise Unsupported("tail loop not found")
+
+    def inv(s, i, N):
+        lst = s.lookup("kitty_widgets")
+        return z3.And(N == D, s.H(lst)["len"] == i, z3.BoolVal(s.ghost["out"] == []))
+
+    def qinv(s, i, N):
+        return [lambda j: z3.Implies(z3.And(0 <= j, j < i), K(j))]
+
+    def havoc(e, s, tag):
+        s.H(s.lookup("kitty_widgets"))["len"] = z3.Int(f"kwlen!{tag}")
+        for nm in ("canv", "_", "widget"):
+            s.env[nm] = Opaque(nm)
+    eng.invariants = {loop_id[0]: LoopSpec(inv, havoc, qinv=qinv, on_break=lambda s: s)}
+    st.env.update(self=self_, image_cviews=new)
+    outs = eng.run(tail, st)
+    for kind, val, s in outs:
+        if kind == "raise":
+            eng.oblige(f"no-exception:{val.cls}", s, False, kind="raise")
+            continue
+        out = s.ghost["out"]
+        j0 = eng.sym_int("j_sk")
+        s2 = s.fork()
+        s2.pc += [to_z3(q(j0)) for q in s.ghost.get("Q", [])]
+        calls = [x for x in out if x[0] == "clear_images"]
+        if len(calls) == 1 and calls[0][1] == ():
+            # delete-all: always sufficient ("a single clear_images() takes care of all images")
+            eng.oblige("delete-all-only-when-something-disappeared", s2, D >= 1, kind="post")
+        elif len(calls) == 1 and len(calls[0][1]) == 1 and calls[0][1][0][0] == "ALL":
+            n_del = calls[0][1][0][1]
+            eng.oblige("delete-by-z-index-for-every-disappeared-image(all-kitty)", s2, z3.And(n_del == D, D >= 1, z3.Implies(z3.And(0 <= j0, j0 < D), K(j0))), kind="post")
+        else:
+            eng.oblige("nothing-deleted-only-when-nothing-disappeared", s2, z3.And(D == 0, z3.BoolVal(len(calls) == 0)), kind="post")
+        cur = s.H(self_)["_ti_image_cviews"]
+        eng.oblige("bookkeeping-replaced-by-the-views-just-computed", s, isinstance(cur, Rec) and cur.name == "frozenset_of" and cur.f["src"] is new, kind="post")
+    return eng.obligations
+
+
+def _unsup(msg):
+    raise Unsupported(msg)
